@@ -59,7 +59,9 @@ PROP = {
             "collision, the empty name, names equal only under Unicode case folding), 6 (quick) / 60 (thorough) random registries of 1..5 "
             "handlers over 4 Go types – JSON: 6, including two instantiations Changed[OrderPlaced] / Changed[UserCreated] of one generic "
             "struct, whose names the harness writes out by hand for every generator (two types, two names: 'OrderPlaced]' / 'UserCreated]' "
-            "under StructName and NamedStruct(StructName)); 1 in 5 JSON registries holds both instantiations side by side – (duplicates frequent) each with a stream of 10 / 14 messages mixing known (produced by the real "
+            "under StructName and NamedStruct(StructName)), and OrderPlaced behind two pointers (a **OrderPlaced sent through the buses, a "
+            "handler declared for *OrderPlaced: same name as OrderPlaced under every library generator – the name functions ignore pointers "
+            "at any depth – except that NamedStruct finds no Name() method there); 1 in 5 JSON registries holds both instantiations side by side – (duplicates frequent) each with a stream of 10 / 14 messages mixing known (produced by the real "
             "marshaler), unknown-name, name-under-another-key, malformed-payload and foreign (name of one type, payload of another) messages, "
             "scripted handler outcomes ok/error/panic, a stale 'original message' in the incoming context in 1/4 of the messages; real "
             "message.Router, scripted subscribers, each delivered message object awaited on Acked()/Nacked(); plus an exhaustive decision "
